@@ -15,6 +15,7 @@ type refState struct {
 	live     []entry
 	used     map[string]bool
 	inDomain bool
+	userSeen bool // a step that is not part of the default registration has been seen
 }
 
 func newRef() *refState { return &refState{used: map[string]bool{}, inDomain: true} }
@@ -30,6 +31,13 @@ func (r *refState) find(name string) int {
 
 // apply advances the reference state by one step (i = index of the step).
 func (r *refState) apply(i int, s Step, skipTx bool) {
+	// the default registration is a prefix of plain Register calls
+	if s.Builtin && (r.userSeen || s.Kind != "register" || s.Before != "" || s.After != "") {
+		r.inDomain = false
+	}
+	if !s.Builtin {
+		r.userSeen = true
+	}
 	switch s.Kind {
 	case "register":
 		if s.Tx && skipTx {
